@@ -213,7 +213,7 @@ func (P *Prog) methodsOf(pkgShort, typ string) []*ssa.Function {
 		if !ok || n.Obj().Pkg() == nil {
 			continue
 		}
-		if n.Obj().Name() == typ && short(n.Obj().Pkg().Path()) == pkgShort {
+		if typName(n) == typ && short(n.Obj().Pkg().Path()) == pkgShort {
 			out = append(out, f)
 		}
 	}
